@@ -29,8 +29,16 @@ ADRT = "AsynchronousDeferredRunTest"
 
 
 class CoreDomain(DefaultDomain):
-    def __init__(self):
-        pass
+    def __init__(self, brd=None):
+        self.brd = brd
+
+    def match(self, handler_type, excvalue, st):
+        if handler_type is None:
+            return "yes"
+        names = [norm(t).split(".")[-1] for t in (handler_type.elts if isinstance(handler_type, ast.Tuple) else [handler_type])]
+        if isinstance(excvalue, tuple) and len(excvalue) == 2 and excvalue[0] == "spinner":
+            return "yes" if excvalue[1] in names or "BaseException" in names or "Exception" in names else "no"
+        return "maybe"
 
     def iter_kind(self, v):
         if v == EMPTY:
@@ -48,10 +56,18 @@ class CoreDomain(DefaultDomain):
                 out.append(r)
                 continue
             s = r.state
-            if d == "self._blocking_run_deferred":
-                for ok in (TRUE, FALSE):
+            if d == "self._blocking_run_deferred" and self.brd is not None:
+                # inlined: what the handlers of spinner errors return decides what _run_core does next
+                params = [p_.arg for p_ in self.brd.args.args][1:]
+                out.extend(interp.inline(self.brd, {params[i]: v for i, v in enumerate(r.value) if i < len(params)}, s, fr, receiver=fr.receiver))
+            elif d == "trap_unhandled_errors":
+                for ok, lab in ((TRUE, "ok"), (FALSE, "failed")):
                     for un in (EMPTY, NONEMPTY):
-                        out.append(val(("tuple", ok, un), s.set("src.run", ok).set("src.unhandled", un)))
+                        out.append(val(("tuple", ok, un), s.set("src.run", lab).set("src.unhandled", un)))
+                out.append(exc(("spinner", "TimeoutError"), s.set("src.run", "timeout").set("src.unhandled", EMPTY)))
+                out.append(exc(("spinner", "NoResultError"), s.set("src.run", "interrupted").set("src.unhandled", EMPTY)))
+            elif d == "self.result.stop":
+                out.append(val(NONE, s.set("ev.stop", 1)))
             elif d and d.endswith(".flush_logged_errors"):
                 for v in (EMPTY, NONEMPTY):
                     out.append(val(v, s.set("src.logged", v)))
@@ -82,31 +98,43 @@ def run(ctx):
 
     # ------------------------------------------------------------------ single success
     core = own_method(ctx, TWRUNTEST, ADRT, "_run_core")
-    dom = CoreDomain()
-    it = Interp(dom, max_depth=2)
+    brd_f = own_method(ctx, TWRUNTEST, ADRT, "_blocking_run_deferred")
+    dom = CoreDomain(brd_f)
+    it = Interp(dom, max_depth=3)
     res = it.analyze(core, {}, State([("ev.success", 0), ("ev.recorded", 0)]), receiver=adrt, name="_run_core")
     ctx.stats["states"] += it.steps
     ctx.analysed(core)
+    ctx.analysed(brd_f)
     combos = {}
     for r in res:
         if r.kind != "val":
             continue
         s = r.state
         key = (s.get("src.run", "?"), s.get("src.logged", "?"), s.get("src.unhandled", "?"), s.get("src.junk", "?"))
-        combos.setdefault(key, set()).add((s.get("ev.success", 0), s.get("ev.recorded", 0)))
-    n_ok = 0
+        combos.setdefault(key, set()).add((s.get("ev.success", 0), s.get("ev.recorded", 0), s.get("ev.stop", 0)))
     for key, outs in sorted(combos.items(), key=repr):
-        run_ok, logged, unhandled, junk = key
-        clean = run_ok == TRUE and logged == EMPTY and unhandled == EMPTY and junk == EMPTY
-        dirty_static = sum(1 for v in (logged, unhandled, junk) if v == NONEMPTY)
-        good = all((succ == (1 if clean else 0)) and (rec >= min(dirty_static, 1)) and (dirty_static == 0 or rec >= 1) for succ, rec in outs) and len(outs) >= 1
-        label = f"run={'ok' if run_ok == TRUE else 'failed'} logged-errors={'yes' if logged == NONEMPTY else 'no'} unhandled={'yes' if unhandled == NONEMPTY else 'no'} junk={'yes' if junk == NONEMPTY else 'no'}"
+        run, logged, unhandled, junk = key
+        yn = lambda v: "yes" if v == NONEMPTY else ("no" if v == EMPTY else "NOT COLLECTED")
+        label = f"run={run} logged-errors={yn(logged)} unhandled={yn(unhandled)} junk={yn(junk)}"
+        if logged == "?" or junk == "?" or run == "?":
+            what = "the errors logged during the test are not flushed from the (process-wide) observer" if logged == "?" else "the spinner's junk is not collected" if junk == "?" else "the blocking run is skipped"
+            ctx.check("R-SINGLE-SUCCESS", f"_run_core: {label}", core, False,
+                      f"on the path with {label}, {what}: it is neither reported for this test nor discarded, and surfaces in the next test run in the same process",
+                      construct=f"{Q}._run_core::{label}")
+            continue
+        clean = run == "ok" and logged == EMPTY and unhandled == EMPTY and junk == EMPTY
+        dirty_static = sum(1 for v in (logged, unhandled, junk) if v == NONEMPTY) + (1 if run in ("timeout", "interrupted") else 0)
+        good = all((succ == (1 if clean else 0)) and (dirty_static == 0 or rec >= 1) for succ, rec, stop in outs) and len(outs) >= 1
+        if run == "interrupted":
+            good = good and all(stop == 1 for succ, rec, stop in outs)
         ctx.check("R-SINGLE-SUCCESS", f"_run_core: {label} -> success x{sorted(o[0] for o in outs)}", core, good,
-                  f"with {label} the runner reports addSuccess {sorted(o[0] for o in outs)} time(s) and records {sorted(o[1] for o in outs)} exception(s): "
-                  + ("success must be reported exactly once" if clean else "no success may be reported and every dirty source must record an exception"),
+                  f"with {label} the runner reports addSuccess {sorted(o[0] for o in outs)} time(s), records {sorted(o[1] for o in outs)} exception(s)"
+                  + (f", result.stop() x{sorted(o[2] for o in outs)}" if run == "interrupted" else "") + ": "
+                  + ("success must be reported exactly once" if clean else "no success may be reported and every dirty source must record an exception"
+                     + (" and an interrupted run must ask the result to stop" if run == "interrupted" else "")),
                   construct=f"{Q}._run_core::{label}")
-    ctx.check("R-SINGLE-SUCCESS", f"all 16 combinations of the four problem sources explored ({len(combos)})", core, len(combos) == 16,
-              f"only {len(combos)} combinations reached a normal exit", examined=len(res), construct=f"{Q}._run_core::combos")
+    ctx.check("R-SINGLE-SUCCESS", f"all 24 combinations of the problem sources explored ({len(combos)})", core, len(combos) == 24,
+              f"{len(combos)} combinations reached a normal exit (16 for a completed run, 4 each for a timed-out and an interrupted one)", examined=len(res), construct=f"{Q}._run_core::combos")
     # each dirty source records through the right call, inside its own arm
     arms = {"flush_logged_errors": "self._got_user_failure", "unhandled": "self._got_user_failure", "junk": "self._log_user_exception"}
     for src, rec in arms.items():
@@ -280,10 +308,10 @@ def run(ctx):
                 handled[n] = h
     for ename, recorder in (("NoResultError", "self._got_user_exception"), ("TimeoutError", "self._log_user_exception")):
         h = handled.get(ename)
-        ok = h is not None and any(isinstance(c, ast.Call) and dotted(c.func) == recorder for c in walk_shallow(h)) and any(
-            isinstance(r, ast.Return) and isinstance(r.value, ast.Tuple) and isinstance(r.value.elts[0], ast.Constant) and r.value.elts[0].value is False for r in walk_shallow(h))
-        ctx.check("R-SPINNER-ERRORS-HANDLED", f"{ename} from the spinner is recorded and makes the run unsuccessful", h if h is not None else brd, ok,
-                  f"{ename} is not handled by recording an exception and returning (False, [])", construct=f"{Q}._blocking_run_deferred::{ename}")
+        # (that the run then ends unsuccessfully, with everything collected, is decided by R-SINGLE-SUCCESS's abstract run)
+        ok = h is not None and any(isinstance(c, ast.Call) and dotted(c.func) == recorder for c in walk_shallow(h))
+        ctx.check("R-SPINNER-ERRORS-HANDLED", f"{ename} from the spinner is recorded through {recorder.split('.')[-1]}", h if h is not None else brd, ok,
+                  f"{ename} is not handled by recording an exception through {recorder}", construct=f"{Q}._blocking_run_deferred::{ename}")
     h = handled.get("NoResultError")
     ok = h is not None and any(isinstance(c, ast.Call) and dotted(c.func) == "self.result.stop" for c in walk_shallow(h))
     ctx.check("R-SPINNER-ERRORS-HANDLED", "an interrupted run asks the result to stop", h if h is not None else brd, ok, "the NoResultError arm no longer calls self.result.stop()",
